@@ -94,6 +94,12 @@ static void msleep_us(unsigned us)
 static struct { void *ptr; int fd; } g_ptrs[MAXPTR];
 static pthread_mutex_t g_ptr_lock = PTHREAD_MUTEX_INITIALIZER;
 static _Atomic int g_cur_fd = -1;
+/* the manager is known to have left _dispatch_event_merge_fd of a hang-up delivery once it has entered epoll_wait again */
+static _Atomic long g_wait_entries, g_hup_mark = -1;
+/* monitored descriptors stay open until the end of the run: their numbers are never reused, so a late epoll_ctl of an
+ * old execution (the hang-up path's EPOLL_CTL_DEL can trail its acknowledgement by any amount of time) can neither be
+ * attributed to a later execution nor hit its registration */
+static int g_keep[4096], g_nkeep;
 
 int epoll_ctl(int epfd, int op, int fd, struct epoll_event *ev)
 {
@@ -117,6 +123,7 @@ int epoll_ctl(int epfd, int op, int fd, struct epoll_event *ev)
 
 int epoll_wait(int epfd, struct epoll_event *evs, int maxevents, int timeout)
 {
+	atomic_fetch_add(&g_wait_entries, 1);
 	int n = (int)syscall(SYS_epoll_pwait, epfd, evs, maxevents, timeout, NULL, 8);
 	int e = errno;
 	for (int i = 0; i < n; i++) {
@@ -126,7 +133,10 @@ int epoll_wait(int epfd, struct epoll_event *evs, int maxevents, int timeout)
 		pthread_mutex_lock(&g_ptr_lock);
 		for (int k = 0; k < MAXPTR; k++) if (g_ptrs[k].ptr == p) { fd = g_ptrs[k].fd; break; }
 		pthread_mutex_unlock(&g_ptr_lock);
-		if (fd >= 0 && fd == atomic_load(&g_cur_fd)) vrt_api("Wait", -1, fd, (long)evs[i].events, 0);
+		if (fd >= 0 && fd == atomic_load(&g_cur_fd)) {
+			if (evs[i].events & EPOLLHUP) atomic_store(&g_hup_mark, atomic_load(&g_wait_entries));
+			vrt_api("Wait", -1, fd, (long)evs[i].events, 0);
+		}
 	}
 	errno = e;
 	return n;
@@ -464,11 +474,16 @@ static void run_one(int id)
 		if (vrt_rand() % 2) msleep_us((unsigned)(vrt_rand() % 2500));
 	}
 	for (int i = 0; i < m; i++) wait_cancelled_and_free(x->slot[rest[i]]);
+	/* a hang-up was delivered: the execution ends only when the manager is out of that delivery's merge (it still
+	 * issues the EPOLL_CTL_DEL after the sources may have acknowledged the deletion on their own threads) */
+	long mark = atomic_load(&g_hup_mark);
+	for (int i = 0; mark >= 0 && i < 50000 && atomic_load(&g_wait_entries) <= mark; i++) msleep_us(100);
+	atomic_store(&g_hup_mark, -1);
 	vrt_api("Quiesce", -1, id, 0, 0);
 	vrt_pause(1);
 	atomic_store(&g_cur_fd, -1);
 	forget_fd(x->a);
-	close(x->a);
+	if (g_nkeep < 4096) g_keep[g_nkeep++] = x->a; else close(x->a);
 	if (x->b >= 0) close(x->b);
 	vrt_pause(0);
 	vrt_progress();
@@ -580,6 +595,7 @@ int main(int argc, char **argv)
 	(void)vrt_tid();
 	for (int e = 0; e < g_nexec && !atomic_load(&g_fail); e++) run_one(e);
 	vrt_dump();
+	for (int i = 0; i < g_nkeep; i++) close(g_keep[i]);
 	fprintf(stderr, "records=%zu overflow=%d threads=%d exec_RW=%ld exec_RR=%ld exec_RRW=%ld exec_RAW=%ld r1_invocations=%ld r2_invocations=%ld w1_invocations=%ld "
 			"suspensions=%ld mid_cancels=%ld recreated=%ld hangups=%ld late_activations=%ld buffer_fills=%ld\n",
 			vrt_count(), vrt_overflowed(), vrt_nthreads(), atomic_load(&g_st_exec[0]), atomic_load(&g_st_exec[1]), atomic_load(&g_st_exec[2]), atomic_load(&g_st_exec[3]),
